@@ -1046,8 +1046,20 @@ class QvmCpu:
             result = -result
         self.push(a.type, result)
 
+    def _abandon_trapped_call_chain(self):
+        # An error handler that leaves through RETURN instead of RESUME
+        # gives up the procedures the error occurred in: what they left
+        # on the operand stack lies on top of the GOSUB return address
+        # and has to go first.
+        if self.error_handler_active and \
+           self.trapped_frame is not None and \
+           self.trapped_frame is not self.cur_frame:
+            self._unwind_statement()
+            self.trapped_frame = None
+
     def _exec_ijmp(self):
         # RETURN
+        self._abandon_trapped_call_chain()
         if self.cur_frame is None or self.cur_frame.gosub_depth == 0:
             # no GOSUB is pending in this routine: what is on top of the
             # stack is the routine's own return address, not ours
@@ -1290,6 +1302,7 @@ class QvmCpu:
 
     def _exec_pop(self):
         # RETURN <label>: throws away the GOSUB's return address
+        self._abandon_trapped_call_chain()
         if self.cur_frame is None or self.cur_frame.gosub_depth == 0:
             self.trap(TrapCode.RETURN_WITHOUT_GOSUB)
         self.pop()
